@@ -19,3 +19,39 @@ Definition check_bits (c : bits_case) : N :=
         | OutOfFuel => st =? 3
         end)
        (negb ((st =? 2) || (st =? 3)) && (pre || negb res)).
+
+(* ---- rmt.VerifyProof / CalculateRootFromUpdateData against the panic-outcome model (Safe/RmtIndex.v) ----
+   Hashes are byte strings; the model's hash values are numbers: an injective tagging (leading 1 byte) carries them.
+   branchHash is the real one (SHA-256 of 0x01 || left || right), getHeight / getLayerStructure are the exact integer versions
+   of RMT/Proof.v (equal to the floating-point code for size <= 2^53; larger sizes are skipped, code 100). *)
+From LE Require RMT.Proof.
+From LE Require Import Safe.RmtIndex Hash.Sha256.
+Definition tagN (bs : list N) : N := fold_left (fun a b => a * 256 + b) bs 1.
+Fixpoint untag_aux (fuel : nat) (n : N) (acc : list N) : list N :=
+  match fuel with O => acc | S f => if n <=? 1 then acc else untag_aux f (n / 256) (n mod 256 :: acc) end.
+Definition untagN (n : N) : list N := untag_aux 200 n [].
+Definition bh_real (a b : N) : N := tagN (sha256 (1 :: untagN a ++ untagN b)).
+Definition gh_exact (size : N) : N := LE.RMT.Proof.get_height size.
+Definition gls_exact (size : N) : list Z := map Z.of_N (LE.RMT.Proof.layer_structure size).
+
+(* (update?, query hashes or update data, size, idxs, sibling hashes, root, status, implementation result ok/true?) *)
+Definition rmt_case : Type := bool * list (list N) * N * list N * list (list N) * list N * N * bool.
+Definition check_rmt (c : rmt_case) : N :=
+  let '(update, qs, size, idxs, sibs, root, st, res) := c in
+  if 2^53 <? size then 100 else
+  let qh := if update then map (fun d => tagN (sha256 (0 :: d))) qs else map tagN qs in
+  let sb := map tagN sibs in
+  if update then
+    (* CalculateRootFromUpdateData: error iff size = 0, no index, length mismatch, cpn error or no root *)
+    let m := if (size =? 0) || Nat.eqb (length idxs) 0 then Err ErrInvalidData
+             else if negb (Nat.eqb (length qs) (length idxs)) then Err ErrInvalidData
+             else match calculate_path_nodes bh_real gh_exact gls_exact qh size idxs sb with
+                  | Ok tree => match mget tree 2 with Some _ => Ok true | None => Err ErrInvalidData end
+                  | Err e => Err e | Panic => Panic | OutOfFuel => OutOfFuel
+                  end in
+    code (match m with Ok _ => (st =? 0) && res | Err _ => (st =? 0) && negb res | Panic => st =? 2 | OutOfFuel => st =? 3 end)
+         (negb ((st =? 2) || (st =? 3)))
+  else
+    let m := verify_proof bh_real gh_exact gls_exact qh size idxs sb (tagN root) in
+    code (match m with Ok b => (st =? 0) && Bool.eqb b res | Err _ => false | Panic => st =? 2 | OutOfFuel => st =? 3 end)
+         (negb ((st =? 2) || (st =? 3))).
